@@ -119,15 +119,32 @@ def perform(op, v, ip, res):
         return cls(v, *settings_args(op))
 
     if k == 'apply':
-        a = (settings_arg(op), op['a'], op['b'], op['top'])
+        if op.get('kw'):
+            # keyword / defaulted argument forms
+            a, kw = (settings_arg(op),), {}
+            if op['a'] != 0 or op['kw'] > 1:
+                kw['start'] = op['a']
+            if op['b'] is not None or op['kw'] > 2:
+                kw['end'] = op['b']
+            if not op['top'] or op['kw'] > 1:
+                kw['topmost'] = op['top']
+        else:
+            a, kw = (settings_arg(op), op['a'], op['b'], op['top']), {}
         if isA:
-            return v.apply_formatting(*a)
-        return _mutate(v, ip, lambda o: o.apply_formatting(*a))
+            return v.apply_formatting(*a, **kw)
+        return _mutate(v, ip, lambda o: o.apply_formatting(*a, **kw))
     if k == 'remove':
-        a = (settings_arg(op), op['a'], op['b'])
+        if op.get('kw'):
+            a, kw = (), {'settings': settings_arg(op)}
+            if op['a'] != 0 or op['kw'] > 1:
+                kw['start'] = op['a']
+            if op['b'] is not None or op['kw'] > 2:
+                kw['end'] = op['b']
+        else:
+            a, kw = (settings_arg(op), op['a'], op['b']), {}
         if isA:
-            return v.remove_formatting(*a)
-        return _mutate(v, ip, lambda o: o.remove_formatting(*a))
+            return v.remove_formatting(*a, **kw)
+        return _mutate(v, ip, lambda o: o.remove_formatting(*a, **kw))
     if k == 'clear':
         if isA:
             return v.clear_formatting()
@@ -186,7 +203,15 @@ def perform(op, v, ip, res):
         if how == 'zfill':
             return _method(v, 'zfill', ip, op['w'])
         if isA:
+            if op.get('kw'):
+                return getattr(v, how)(width=op['w'], fillchar=op['fill'])
+            if op['fill'] == ' ' and op.get('default_fill'):
+                return getattr(v, how)(op['w'])
             return getattr(v, how)(op['w'], op['fill'])
+        if op.get('kw'):
+            return getattr(v, how)(fillchar=op['fill'], width=op['w'], extend_formatting=op['ext'], inplace=bool(ip))
+        if op['fill'] == ' ' and op.get('default_fill') and op['ext']:
+            return getattr(v, how)(op['w'], inplace=bool(ip))
         return getattr(v, how)(op['w'], op['fill'], inplace=bool(ip), extend_formatting=op['ext'])
     if k == 'fmt':
         spec = compose_spec(op['spec'])
@@ -214,6 +239,13 @@ def perform(op, v, ip, res):
         return _method(v, 'removeprefix' if op['how'] == 'prefix' else 'removesuffix', ip, op['x'])
     if k == 'split':
         args = []
+        if op.get('kw'):
+            kw = {}
+            if 'sep' in op:
+                kw['sep'] = op.get('sep')
+            if 'max' in op:
+                kw['maxsplit'] = op['max']
+            return getattr(v, op['how'])(**kw)
         if op.get('sep') is not None or 'max' in op:
             args.append(op.get('sep'))
         if 'max' in op:
@@ -226,6 +258,9 @@ def perform(op, v, ip, res):
     if k == 'replace':
         new = res(op['new'])
         args = [op['old'], new]
+        if op.get('kw'):
+            kw = {'count': op['count']} if 'count' in op else {}
+            return _method(v, 'replace', ip, old=op['old'], new=new, **kw)
         if 'count' in op:
             args.append(op['count'])
         return _method(v, 'replace', ip, *args)
@@ -235,7 +270,17 @@ def perform(op, v, ip, res):
         return _method(v, 'expandtabs', ip)
 
     if k == 'find':
-        return v.find_settings(settings_arg(op) if op.get('st') is not None else [], op['a'], op['b'], op['rev'])
+        st = settings_arg(op) if op.get('st') is not None else []
+        if op.get('kw'):
+            kw = {}
+            if op['a'] != 0 or op['kw'] > 1:
+                kw['start'] = op['a']
+            if op['b'] is not None or op['kw'] > 1:
+                kw['end'] = op['b']
+            if op['rev'] or op['kw'] > 1:
+                kw['reverse'] = op['rev']
+            return v.find_settings(st, **kw)
+        return v.find_settings(st, op['a'], op['b'], op['rev'])
     if k == 'query':
         return query(v, op, res)
     raise AssertionError('unknown op kind %r' % k)
